@@ -4,6 +4,7 @@ lexicographic comparison of the two strings' own token lists (non-digit prefix a
 prefix as a number), which makes it a total preorder comparator by the algebra of `Lex.lean`.
 -/
 import Scalibr.Proofs.Semantic.Alpine
+import Scalibr.Proofs.Semantic.GoShape
 namespace Scalibr.Semantic
 
 def notDigit (c : Char) : Bool := !isDigit c
@@ -183,10 +184,286 @@ theorem parseDeb_nopanic (s : List Char) : parseDeb s ≠ .panic := by
   repeat' split
   all_goals simp
 
+/-! ## the Go-shaped functions: every index and slice is in range -/
+
+theorem take_takeWhile {α : Type} (p : α → Bool) (s : List α) : s.take (s.takeWhile p).length = s.takeWhile p := by
+  have h := @List.takeWhile_append_dropWhile _ p s
+  calc s.take (s.takeWhile p).length = (s.takeWhile p ++ s.dropWhile p).take (s.takeWhile p).length := by rw [h]
+    _ = s.takeWhile p := List.take_left' rfl
+
+theorem drop_takeWhile {α : Type} (p : α → Bool) (s : List α) : s.drop (s.takeWhile p).length = s.dropWhile p := by
+  have h := @List.takeWhile_append_dropWhile _ p s
+  calc s.drop (s.takeWhile p).length = (s.takeWhile p ++ s.dropWhile p).drop (s.takeWhile p).length := by rw [h]
+    _ = s.dropWhile p := List.drop_left' rfl
+
+theorem length_takeWhile_le {α : Type} (p : α → Bool) (s : List α) : (s.takeWhile p).length ≤ s.length := by
+  have h := congrArg List.length (@List.takeWhile_append_dropWhile _ p s)
+  simp only [List.length_append] at h; omega
+
+theorem goSlice_eq {α : Type} (l : List α) (lo hi : Int) (a b : Nat) (hlo : lo = a) (hhi : hi = b)
+    (h1 : a ≤ b) (h2 : b ≤ l.length) : goSlice l lo hi = some ((l.take b).drop a) := by
+  subst hlo hhi
+  have c : (0 : Int) ≤ (a : Int) ∧ (a : Int) ≤ (b : Int) ∧ (b : Int) ≤ (l.length : Int) := by omega
+  simp [goSlice, c]
+
+/-- the index the two prefix splitters slice at is the length of the prefix, hence in range -/
+theorem idx_split (p : Char → Bool) (s : List Char) :
+    let i := indexFunc p s
+    let i' := if i = -1 then (s.length : Int) else i
+    (i = 0 ↔ (s.takeWhile fun c => !p c).length = 0 ∧ 0 < s.length) ∧
+      goSlice s 0 i' = some (s.takeWhile fun c => !p c) ∧ goSlice s i' s.length = some (s.dropWhile fun c => !p c) := by
+  have hle := length_takeWhile_le (fun c => !p c) s
+  simp only [indexFunc]
+  by_cases hn : (s.takeWhile fun c => !p c).length < s.length
+  · simp only [hn, if_true]
+    have hne : ¬ (((s.takeWhile fun c => !p c).length : Int) = -1) := by omega
+    simp only [hne, if_false]
+    refine ⟨by omega, ?_, ?_⟩
+    · rw [goSlice_eq s 0 _ 0 _ rfl rfl (Nat.zero_le _) hle, List.drop_zero, take_takeWhile]
+    · rw [goSlice_eq s _ _ _ s.length rfl rfl hle (Nat.le_refl _), List.take_length, drop_takeWhile]
+  · simp only [hn, if_false, if_true]
+    have he : (s.takeWhile fun c => !p c).length = s.length := by omega
+    refine ⟨by omega, ?_, ?_⟩
+    · rw [goSlice_eq s 0 _ 0 s.length rfl rfl (Nat.zero_le _) (Nat.le_refl _), List.drop_zero, ← he, take_takeWhile]
+    · rw [goSlice_eq s _ _ s.length s.length rfl rfl (Nat.le_refl _) (Nat.le_refl _), List.take_length, ← drop_takeWhile, he]
+
+theorem debNonDigitPrefixGo_eq (s : List Char) :
+    debNonDigitPrefixGo s = some (s.takeWhile (fun c => !isDigit c), s.dropWhile (fun c => !isDigit c)) := by
+  obtain ⟨h0, h1, h2⟩ := idx_split isDigit s
+  unfold debNonDigitPrefixGo
+  simp only []
+  by_cases hz : (indexFunc isDigit s = 0 || s.isEmpty) = true
+  · simp only [hz, if_true]
+    have hl : (s.takeWhile fun c => !isDigit c).length = 0 := by
+      simp only [Bool.or_eq_true, decide_eq_true_eq, List.isEmpty_iff] at hz
+      rcases hz with hz | hz
+      · exact (h0.mp hz).1
+      · subst hz; rfl
+    have ht : (s.takeWhile fun c => !isDigit c) = [] := List.eq_nil_of_length_eq_zero hl
+    have hd := drop_takeWhile (fun c => !isDigit c) s
+    rw [hl, List.drop_zero] at hd
+    rw [ht, ← hd]
+  · simp only [hz, Bool.false_eq_true, if_false, h1, h2, Option.bind_some]
+
+theorem debDigitPrefixGo_eq (s : List Char) : debDigitPrefixGo s = some (debDigitPrefix s) := by
+  obtain ⟨h0, h1, h2⟩ := idx_split (fun c => !isDigit c) s
+  simp only [Bool.not_not] at h0 h1 h2
+  unfold debDigitPrefixGo debDigitPrefix
+  simp only []
+  by_cases hz : (indexFunc (fun c => !isDigit c) s = 0 || s.isEmpty) = true
+  · simp only [hz, if_true]
+    have hl : (s.takeWhile isDigit).length = 0 := by
+      simp only [Bool.or_eq_true, decide_eq_true_eq, List.isEmpty_iff] at hz
+      rcases hz with hz | hz
+      · exact (h0.mp hz).1
+      · subst hz; rfl
+    have ht : s.takeWhile isDigit = [] := List.eq_nil_of_length_eq_zero hl
+    simp [ht]
+  · simp only [hz, Bool.false_eq_true, if_false, h1, h2, Option.bind_some]
+    have hne : (s.takeWhile isDigit).isEmpty = false := by
+      simp only [Bool.or_eq_true, decide_eq_true_eq, List.isEmpty_iff, not_or] at hz
+      cases ht : s.takeWhile isDigit with
+      | nil =>
+        exfalso
+        apply hz.1
+        apply h0.mpr
+        refine ⟨by rw [ht]; rfl, ?_⟩
+        cases s with
+        | nil => exact absurd rfl hz.2
+        | cons c r => simp
+      | cons c r => rfl
+    simp only [hne, Bool.false_eq_true, if_false]
+    cases toBig (s.takeWhile isDigit) <;> rfl
+
+/-- `weighDebianChar` on a string -/
+def debWeighS (x : List Char) : Nat :=
+  if x = ['~'] then 1
+  else
+    match x with
+    | [] => 2
+    | c :: _ =>
+      let n := firstByte c
+      if n < 65 || (n > 90 && n < 97) || n > 122 then n + 122 else n
+
+/-- `char[0]` is behind the `char == ""` test -/
+theorem debWeighGo_eq (x : List Char) : debWeighGo x = some (debWeighS x) := by
+  unfold debWeighGo debWeighS
+  by_cases h : x = ['~']
+  · simp [h]
+  · cases x with
+    | nil => simp
+    | cons c r => simp [h, goIndex]
+
+theorem debWeighS_single (c : Char) : debWeighS [c] = debWeigh c := by
+  unfold debWeighS debWeigh
+  by_cases h : c = '~'
+  · simp [h]
+  · simp [h]
+
+theorem cmpDebNonDigitGo_eq (ap bp : List Char) : cmpDebNonDigitGo ap bp = some (cmpDebNonDigit ap bp) := by
+  unfold cmpDebNonDigitGo cmpDebNonDigit
+  by_cases h : ap = bp
+  · simp [h]
+  · simp only [h, if_false]
+    rw [cmpPadGo_eq debWeighCmpGo (cmpOn debWeighS ncmp) (fun x y => by simp [debWeighCmpGo, debWeighGo_eq, cmpOn])]
+    have e : (2 : Nat) = debWeighS [] := rfl
+    have m : ∀ l : List Char, l.map debWeigh = (l.map fun c => [c]).map debWeighS := by
+      intro l; simp [List.map_map, Function.comp_def, debWeighS_single]
+    rw [e, m ap, m bp, cmpPad_map]
+
+theorem ordAndThenGo (d : Ordering) (k : CRes) : (CRes.ord d).andThenGo (some k) = some (ordThen d fun _ => k) := by
+  cases d <;> rfl
+
+theorem andThenGo_some (r k : CRes) : r.andThenGo (some k) = some (r.andThen fun _ => k) := by
+  cases r with
+  | ord o => cases o <;> rfl
+  | err => rfl
+  | panic => rfl
+
+theorem cmpDebStrGo_eq : ∀ (f : Nat) (a b : List Char), cmpDebStrGo f a b = some (cmpDebStr f a b) := by
+  intro f
+  induction f with
+  | zero => intro a b; rfl
+  | succ f ih =>
+    intro a b
+    simp only [cmpDebStrGo, cmpDebStr, debNonDigitPrefixGo_eq, cmpDebNonDigitGo_eq, debDigitPrefixGo_eq, Option.bind_some, ih]
+    split
+    · rfl
+    · cases debDigitPrefix (a.dropWhile fun c => !isDigit c) with
+      | none => exact ordAndThenGo _ _
+      | some xa =>
+        cases debDigitPrefix (b.dropWhile fun c => !isDigit c) with
+        | none => exact ordAndThenGo _ _
+        | some yb =>
+          simp only [ordAndThenGo]
+
+theorem cmpDebGo_eq (v w : DebV) : cmpDebGo v w = some (cmpDeb v w) := by
+  simp only [cmpDebGo, cmpDeb, cmpDebStrGo_eq, Option.bind_some, andThenGo_some]
+  congr 1
+  cases icmp v.epoch w.epoch <;> rfl
+
+/-! `splitAround` -/
+
+theorem cutAt_eq (c : Char) : ∀ s : List Char,
+    cutAt c s = if (s.takeWhile fun x => !decide (x = c)).length < s.length
+      then some (s.take (s.takeWhile fun x => !decide (x = c)).length, s.drop ((s.takeWhile fun x => !decide (x = c)).length + 1))
+      else none := by
+  intro s
+  induction s with
+  | nil => simp [cutAt]
+  | cons x xs ih =>
+    by_cases h : x = c
+    · simp [cutAt, h]
+    · simp only [cutAt, h, if_false, ih, List.takeWhile_cons, decide_false, Bool.not_false, if_true, List.length_cons,
+        Nat.add_lt_add_iff_right, List.take_succ_cons, List.drop_succ_cons]
+      by_cases hl : (xs.takeWhile fun x => !decide (x = c)).length < xs.length <;> simp [hl]
+
+theorem contains_iff_idx (c : Char) : ∀ s : List Char,
+    s.contains c = decide ((s.takeWhile fun x => !decide (x = c)).length < s.length) := by
+  intro s
+  induction s with
+  | nil => simp
+  | cons x xs ih =>
+    by_cases h : x = c
+    · simp [h]
+    · have h' : ¬ c = x := fun e => h e.symm
+      simp only [List.contains_cons, ih, List.takeWhile_cons, h, decide_false, Bool.not_false, if_true, List.length_cons,
+        Nat.add_lt_add_iff_right]
+      simp [h']
+
+theorem splitAroundGo_fwd (s : List Char) (c : Char) (h : s.contains c = true) :
+    ∃ a b, cutAt c s = some (a, b) ∧ splitAroundGo s c false = some (a, b) := by
+  rw [contains_iff_idx] at h
+  have hlt := of_decide_eq_true h
+  refine ⟨_, _, by rw [cutAt_eq, if_pos hlt], ?_⟩
+  unfold splitAroundGo indexFunc
+  simp only [Bool.false_eq_true, if_false, hlt, if_true]
+  have hne : ¬ (((s.takeWhile fun x => !decide (x = c)).length : Int) = -1) := by omega
+  simp only [hne, if_false]
+  rw [goSlice_eq s 0 _ 0 _ rfl rfl (Nat.zero_le _) (by omega),
+    goSlice_eq s _ _ ((s.takeWhile fun x => !decide (x = c)).length + 1) s.length (by omega) rfl (by omega) (Nat.le_refl _)]
+  simp
+
+theorem splitAroundGo_rev (s : List Char) (c : Char) (h : s.contains c = true) :
+    ∃ a b, cutLast c s = some (a, b) ∧ splitAroundGo s c true = some (a, b) := by
+  have hr : s.reverse.contains c = true := by
+    rw [List.contains_iff_mem] at h ⊢
+    exact List.mem_reverse.mpr h
+  rw [contains_iff_idx] at hr
+  have hlt := of_decide_eq_true hr
+  rw [List.length_reverse] at hlt
+  have hm : ∀ x : Char, (x ≠ c) = (¬ x = c) := fun _ => rfl
+  refine ⟨_, _, by unfold cutLast; rw [cutAt_eq, List.length_reverse, if_pos hlt], ?_⟩
+  unfold splitAroundGo lastIndexOf
+  have hp : (fun x : Char => decide (x ≠ c)) = fun x => !decide (x = c) := by
+    funext x; simp
+  simp only [if_true, hp, hlt]
+  have hne : ¬ ((s.length : Int) - 1 - ((s.reverse.takeWhile fun x => !decide (x = c)).length : Int) = -1) := by omega
+  simp only [hne, if_false]
+  rw [goSlice_eq s 0 _ 0 (s.length - ((s.reverse.takeWhile fun x => !decide (x = c)).length + 1)) rfl (by omega) (Nat.zero_le _) (by omega),
+    goSlice_eq s _ _ (s.length - (s.reverse.takeWhile fun x => !decide (x = c)).length) s.length (by omega) rfl (by omega) (Nat.le_refl _)]
+  simp only [Option.bind_some, List.drop_zero, List.take_length, List.drop_reverse, List.take_reverse, List.reverse_reverse]
+
+/-- `parseDebianVersion`: the slices of `splitAround` are in range -/
+theorem parseDebGo_eq (s : List Char) : parseDebGo s = some (parseDeb s) := by
+  unfold parseDebGo parseDeb
+  simp only []
+  generalize trimSpace s = t
+  have tail : ∀ (ep : Option (Int × List Char)),
+      (match ep with
+        | none => some PRes.err
+        | some er =>
+          if er.2.contains '-' = true then (splitAroundGo er.2 '-' true).bind fun q => some (PRes.ok (⟨er.1, q.1, q.2⟩ : DebV))
+          else some (PRes.ok ⟨er.1, er.2, ['0']⟩)) =
+      some (match ep with
+        | none => PRes.err
+        | some (epoch, rest) =>
+          match cutLast '-' rest with
+          | some (up, rev) => PRes.ok ⟨epoch, up, rev⟩
+          | none => PRes.ok ⟨epoch, rest, ['0']⟩) := by
+    intro ep
+    cases ep with
+    | none => rfl
+    | some er =>
+      obtain ⟨epoch, rest⟩ := er
+      simp only []
+      by_cases hc : rest.contains '-' = true
+      · obtain ⟨a, b, h1, h2⟩ := splitAroundGo_rev rest '-' hc
+        simp only [hc, if_true, h1, h2, Option.bind_some]
+      · have hn : cutLast '-' rest = none := by
+          unfold cutLast
+          rw [cutAt_eq, List.length_reverse]
+          have : ¬ ((rest.reverse.takeWhile fun x => !decide (x = '-')).length < rest.length) := by
+            intro hlt
+            apply hc
+            have := (contains_iff_idx '-' rest.reverse).trans (decide_eq_true (by rw [List.length_reverse]; exact hlt))
+            rw [List.contains_iff_mem] at this ⊢
+            exact List.mem_reverse.mp this
+          simp only [this, if_false]
+        simp only [hc, Bool.false_eq_true, if_false, hn]
+  by_cases hc : t.contains ':' = true
+  · obtain ⟨a, b, h1, h2⟩ := splitAroundGo_fwd t ':' hc
+    simp only [hc, if_true, h1, h2, Option.bind_some]
+    cases toBig a with
+    | none => exact tail none
+    | some n => exact tail (some (n, b))
+  · have hn : cutAt ':' t = none := by
+      rw [cutAt_eq]
+      have : ¬ ((t.takeWhile fun x => !decide (x = ':')).length < t.length) := by
+        intro hlt; exact hc ((contains_iff_idx ':' t).trans (decide_eq_true hlt))
+      simp [this]
+    simp only [hc, Bool.false_eq_true, if_false, hn, Option.bind_some]
+    exact tail (some (0, t))
+
+@[simp] theorem debianFam_parse (s : List Char) : debianFam.parse s = parseDeb s := by
+  simp [debianFam, parseDebGo_eq, PRes.joinGo]
+@[simp] theorem debianFam_cmp (v w : DebV) : debianFam.cmp v w = cmpDeb v w := by
+  simp [debianFam, cmpDebGo_eq, CRes.joinGo]
+
 theorem debian_laws : FamLaws debianFam (fun _ => True) cmpDebT where
-  parse_nopanic := parseDeb_nopanic
+  parse_nopanic := fun s => by rw [debianFam_parse]; exact parseDeb_nopanic s
   parse_wf := fun _ _ _ => trivial
-  cmp_eq := fun v w _ _ => cmpDeb_eq v w
+  cmp_eq := fun v w _ _ => (debianFam_cmp v w).trans (cmpDeb_eq v w)
   refl := fun v _ => cmpDebT_isCmp.refl v
   swap := fun v w _ _ => cmpDebT_isCmp.swap v w
 
